@@ -167,6 +167,15 @@ class Cron(addons.AddonMainTask, block.SBlock):
                     # wrap around midnight (relying on hourly wakeups in SET24)
                     sleeptime += SEC_PER_DAY
                 # sleeptime: negative = after the alarm time; positive = before the alarm time
+                if sleeptime > (_TT_ERROR if step > 0 else SEC_PER_HOUR + _TT_ERROR):
+                    # Way too early. The hourly wakeups guarantee that no sleep exceeds
+                    # one hour. The clock was set back or - after a clock jump or a delay -
+                    # it is past midnight and the wakeup time belongs to yesterday; without
+                    # a reset the scheduler would sleep till that time of day comes again.
+                    diff = sleeptime
+                    self.log_warning("expected time: %s, current time: %s", wakeup, nowt)
+                    reset.set()
+                    break
                 if step == 0:
                     self.log_debug("sleep until wakeup: %.3f sec", sleeptime)
                 if step > 1 or sleeptime < 0:
